@@ -231,6 +231,11 @@ def surface_points(su, sv, skew, heights):
     for i in range(su):
         for j in range(sv):
             x, y = _coord(XS, i), _coord(YS, j)
+            if isinstance(heights, str) and heights.startswith('lift:'):
+                # a unit square grid with a small smooth deflection: the u and the v parameters are almost, but not exactly, equal
+                # (the deflection is not symmetric under exchanging the two directions)
+                pts.append([float(i), float(j), float(heights.split(':')[1]) * (i * i + 2.0 * j) / float(su * su)])
+                continue
             if isinstance(heights, str):
                 h = _height(int(heights.split(':')[1]), i, j)
             else:
@@ -290,6 +295,9 @@ def gen_cases(tier, seed):
                 if tol:
                     cdict['tol'] = tol
                 cases.append(cdict)
+    for n in (3, 4, 5):
+        for lift in ('lift:0.004', 'lift:0.001', 'lift:0.05'):
+            cases.append(dict(kind='surf', su=n, sv=n, skew=0, heights=lift))
     # history dependence: default-option fits (keyword omitted) after fits that used centripetal=True
     for n in (8, 12):
         for idx, bits in enumerate(stair_patterns(n, 6)):
